@@ -10,7 +10,8 @@ for d in sorted(glob.glob('/verif/seeded/*/meta.json')):
         return 'caught' if c.get('caught') else ('inconclusive' if c.get('inconclusive') else 'MISSED')
     labels=', '.join(l.split('/')[0]+'/'+l.split('/')[1][:48] for l in now.get('labels',[])[:2])
     what=' '.join(m.get('breaks',[])[:2])[:170].replace('|','/').replace('\n',' ')
-    rows.append(f"| {m['name']} | {m['property']} | {st(first)} | {st(now)} | {labels} |")
+    nowst=st(now)+(' (before fix 1717b2e; superseded)' if m.get('superseded') else '')
+    rows.append(f"| {m['name']} | {m['property']} | {st(first)} | {nowst} | {labels} |")
 print("| seeded change | property | first run | now | assertion(s) that fire |")
 print("|---|---|---|---|---|")
 print('\n'.join(rows))
